@@ -79,9 +79,25 @@ class CallGraph:
                 out.append(c.resolved)
             elif c.callee in F.fns:
                 out.append(c.callee)
-        out.extend(c.cb)
-        # closures handed to a workspace generic function are assumed callable by it
-        if (c.resolved in F.fns) or (c.callee in F.fns):
+        ws_callee = F.fns.get(c.resolved) or F.fns.get(c.callee)
+        if ws_callee is None or c.virtual:
+            out.extend(c.cb)
+        else:
+            # The callee's body is in the workspace: of the methods its bounds *allow* it to call on the type
+            # arguments, keep those it (or a generic workspace helper it calls) really calls through a type
+            # parameter (unresolved trait-method calls).  Closures / fn items are kept: they are passed to be called.
+            used = self.unresolved_trait_calls(ws_callee.name)
+            for t in c.cb:
+                tf = F.fns.get(t)
+                if tf is None or tf.kind == "Closure":
+                    out.append(t)
+                    continue
+                im = F.impls.get(tf.impl) if tf.impl else None
+                if im is None or im["trait"] is None:
+                    out.append(t)
+                    continue
+                if (im["trait"] + "::" + tf.method) in used:
+                    out.append(t)
             out.extend(c.cl)
         # virtual trait methods reported through bounds → CHA
         extra = []
@@ -89,6 +105,34 @@ class CallGraph:
             if t not in F.fns and F.traits.get(t.rpartition("::")[0]):
                 extra.extend(self.trait_impl_methods(t))
         out.extend(extra)
+        return out
+
+    def unresolved_trait_calls(self, fname, depth=3):
+        """trait-method defs a workspace function calls through a type parameter (directly or via workspace
+        generic callees, depth-limited)"""
+        memo = self.__dict__.setdefault("_unres_memo", {})
+        key = (fname, depth)
+        if key in memo:
+            return memo[key]
+        memo[key] = set()
+        out = set()
+        fn = self.F.fns.get(fname)
+        if fn is not None:
+            for c in fn.calls():
+                if c.raw.get("unres") and c.callee:
+                    out.add(c.callee)
+                elif c.callee and c.resolved == c.callee and c.callee not in self.F.fns and \
+                        self.F.traits.get(c.callee.rpartition("::")[0]) is not None and not c.virtual:
+                    out.add(c.callee)
+                elif depth > 0 and c.ga:
+                    t = self.F.fns.get(c.resolved) or self.F.fns.get(c.callee)
+                    if t is not None and t.name != fname:
+                        out |= self.unresolved_trait_calls(t.name, depth - 1)
+            # closures defined in the function belong to it
+            if depth > 0:
+                for cl in self.F.closures_of(fn) if fn.kind != "Closure" else []:
+                    out |= self.unresolved_trait_calls(cl.name, depth - 1)
+        memo[key] = out
         return out
 
     def reach_set(self, roots):
